@@ -26,6 +26,16 @@ check('C14', 'model_checking',
       'bounded: years/days/hours/amounts are the boundary sets of the cfg, not all values; TLC, the dump parser and the attribute-read projection are trusted',
       'TLA+ generator + TLC model checking of the transcription; spec->code replay; TLC trace validation')
 
+check('C15', 'model_checking',
+      'Scenarios are the terminal states of the TLA+ generator Gen_TimexResolve (bounded-exhaustive: weekdays x reference days, durations, '
+      'years, months; candidate sets x ordered/unordered date-range and time-range constraint sets); each is replayed into TimexResolver.resolve / '
+      'TimexRangeResolver.evaluate under a watchdog and judged by TLC against the calendar oracle of TimexResolve.tla (Trace_TimexResolve). '
+      'TLC also model-checks the transcription of the constraint-collapse loop (ConstraintCollapse: termination, no growth, results inside supplied '
+      'ranges) and the real helper is compared with it on all 1110 initial lists.',
+      'DESIGN.md section 4, C15',
+      'bounded: reference days, ranges and candidate pools are the finite sets of the cfg; Calendar.tla is model-checked for 1900..2100 (MC_Calendar); a call that does not return within 10 s counts as a violation (NoReturn)',
+      'TLA+ scenario generator; spec->code replay; TLC trace validation; TLC model checking of the collapse loop')
+
 NOT_APPLICABLE['C18'] = ('equates two sets of static files through the resource generator: no state, transition or case analysis for a TLA+ '
                          'specification to capture; the generator also cannot run here (ruamel.yaml is neither installed nor in the wheelhouse). '
                          'See DESIGN.md section 6.')
